@@ -200,7 +200,7 @@ def rw_unit(kind, T, framesv, ch, tier):
     return {"name": "sndfile.%s.ch%d" % (fn, ch), "props": props, "harness_text": text,
             "template": "units/gen_sndfile.py", "entry": "h_unit", "enforce": fn, "function": "sndfile.c:" + fn,
             "replace": ["psf_memset", "psf_file_valid"], "timeout": 600, "tier": tier,
-            "kind": "enumerated(channels=%d)" % ch, "defines": [], "cbmc_flags": ["--object-bits", "12"],
+            "kind": "enumerated(channels=%d)" % ch, "defines": [], "cbmc_flags": ["--object-bits", "9"],
             "replay_driver": "sndfile_rw.c", "replay_link": "all", "replay_exclude": ["sndfile.c"],
             "replay_defines": ["-DFN=%s" % fn, "-DT=%s" % T, "-DCH=%d" % ch, "-DKIND_%s" % kind.upper(),
                                "-DFRAMESV=%d" % (1 if framesv else 0)],
@@ -211,14 +211,14 @@ def rw_unit(kind, T, framesv, ch, tier):
 def units():
     U = [{"name": "sndfile.sf_seek", "props": ["C06", "C08", "C09", "C19", "C15"], "harness": "sndfile_seek.harness.c",
           "entry": "h_seek", "enforce": "sf_seek", "function": "sndfile.c:sf_seek", "replace": ["psf_file_valid"],
-          "cbmc_flags": ["--object-bits", "12"], "timeout": 600, "replay_driver": "sndfile_seek.c",
+          "cbmc_flags": ["--object-bits", "9"], "timeout": 600, "replay_driver": "sndfile_seek.c",
           "replay_link": "all", "replay_exclude": ["sndfile.c"],
           "trusted": ["generic dispatch contract codec_seek_c stands for psf->seek"]}]
     U.append({"name": "sndfile.sf_error_number", "props": ["C09"], "harness": "sndfile_error.harness.c", "entry": "h_error_number",
               "dfcc": False, "function": "sndfile.c:sf_error_number", "defines": ["-DUNIT_ERROR_NUMBER_PLAIN"],
               "cbmc_flags": ["--object-bits", "12", "--unwind", "300"], "timeout": 900, "kind": "proof (complete unwinding over the constant message table)"})
     for nm, fn, extra in (
-                          ("sf_error", "sf_error", {"replace": ["psf_file_valid"], "cbmc_flags": ["--object-bits", "12"]}),):
+                          ("sf_error", "sf_error", {"replace": ["psf_file_valid"], "cbmc_flags": ["--object-bits", "9"]}),):
         u = {"name": "sndfile." + nm, "props": ["C09", "C19"], "harness": "sndfile_error.harness.c", "entry": "h_" + nm[3:],
              "enforce": fn, "function": "sndfile.c:" + fn, "timeout": 600,
              "trusted": ["E1 snprintf model", "printf (CBMC built-in)"]}
@@ -230,14 +230,14 @@ def units():
                       "props": ["C05", "C09", "C08", "C15"] + (["C04"] if kind == "write" else ["C06"]),
                       "harness": "sndfile_raw.harness.c", "entry": "h_raw", "enforce": "sf_%s_raw" % kind,
                       "function": "sndfile.c:sf_%s_raw" % kind, "replace": ["psf_file_valid", "psf_memset", "psf_fread", "psf_fwrite"],
-                      "defines": ["-DUNIT_%s_RAW" % kind.upper(), "-DCH=%d" % ch, "-DBYTEW=%d" % bw], "cbmc_flags": ["--object-bits", "12"],
+                      "defines": ["-DUNIT_%s_RAW" % kind.upper(), "-DCH=%d" % ch, "-DBYTEW=%d" % bw], "cbmc_flags": ["--object-bits", "9"],
                       "timeout": 600, "kind": "enumerated(channels=%d, bytewidth=%d)" % (ch, bw),
                       "tier": "quick" if (ch, bw) in ((2, 2), (3, 3)) else "thorough"})
     for nm in ("open_virtual", "open_fd"):
         U.append({"name": "sndfile.sf_" + nm, "props": ["C14", "C16", "C09", "C19"], "harness": "sndfile_open.harness.c", "entry": "h_" + nm,
                   "enforce": "sf_" + nm, "function": "sndfile.c:sf_" + nm,
                   "replace": ["psf_allocate", "psf_init_files", "psf_set_file", "psf_is_pipe", "psf_ftell", "psf_open_file"],
-                  "cbmc_flags": ["--object-bits", "12"], "timeout": 600,
+                  "cbmc_flags": ["--object-bits", "9"], "timeout": 600,
                   "pre_gi_flags": ["--generate-function-body", "psf_copy_filename", "--generate-function-body-options", "nondet-return"],
                   "trusted": ["psf_allocate / psf_init_files / psf_set_file contracts (file_io.c, common.c)", "E1 snprintf model", "E3 close model"]})
     callee = ["verif_log_printf", "psf_file_valid", "sf_version_string", "psf_get_format_simple", "psf_get_format_major",
@@ -256,7 +256,7 @@ def units():
     for nm, val in [(i, i) for i in ids] + undefined:
         u = dict({"name": "sndfile.sf_command", "props": ["C17", "C09", "C11", "C12"], "harness": "sndfile_command.harness.c",
               "entry": "h_command", "enforce": "sf_command", "function": "sndfile.c:sf_command", "replace": callee,
-              "gi_flags": [], "cbmc_flags": ["--object-bits", "12"], "timeout": 1200, "mem_gb": 16,
+              "gi_flags": [], "cbmc_flags": ["--object-bits", "9"], "timeout": 1200, "mem_gb": 16,
               "loops": {"sf_command": [{"loop_id": 0, "assigns_locals": True,
                         "invariants": "__CPROVER_same_object (iptr, data) && (int *) data <= iptr && iptr <= (int *) data + psf->sf.channels",
                         "decreases": "(int *) data + psf->sf.channels - iptr"}]},
@@ -277,6 +277,20 @@ def units():
         if nm in ("SFC_GET_CHANNEL_MAP_INFO", "SFC_SET_CHANNEL_MAP_INFO", "SFC_SET_ADD_PEAK_CHUNK", "SFC_CALC_MAX_ALL_CHANNELS",
                   "SFC_CALC_NORM_MAX_ALL_CHANNELS", "SFC_GET_MAX_ALL_CHANNELS"):
             # sizes proportional to the channel count: enumerate it (symbolic-size memcpy/calloc are out of reach)
+            if nm == "SFC_SET_CHANNEL_MAP_INFO":
+                for ch in (2, 3):
+                    for dsn, ds in (("exact", 4 * ch), ("short", 4 * ch - 1), ("long", 4 * ch + 4), ("zero", 0)):
+                        v = dict(u)
+                        v["name"] = u["name"] + ".ch%d.%s" % (ch, dsn)
+                        v["defines"] = u["defines"] + ["-DFIX_CH=%d" % ch, "-DDATASIZE_FIXED=%d" % ds]
+                        v["kind"] = "enumerated(channels=%d, datasize=%d); validation loop unwound completely" % (ch, ds)
+                        v["tier"] = "quick" if ch == 2 else "thorough"
+                        v["loops"] = {}
+                        # free()/malloc() make DFCC's object sets (2^object-bits entries) symbolic: keep object bits minimal
+                        v["cbmc_flags"] = ["--object-bits", "9", "--unwindset", "sf_command.0:%d" % (ch + 2)]
+                        v["timeout"] = 1200
+                        U.append(v)
+                continue
             for ch in (1, 2, 3, 8, 1024):
                 v = dict(u)
                 v["name"] = u["name"] + ".ch%d" % ch
